@@ -263,7 +263,7 @@ func (l *Lab) classifyOpError(res OpResult) (Finding, bool) {
 			}
 		}
 	}
-	if op.Kind == KCommit && res.KeptTree && l.TreeShortcut[op.Tree] && res.Class == "ErrNodeNotFound" {
+	if op.Kind == KCommit && res.AfterShortcut && res.Class == "ErrNodeNotFound" {
 		return Finding{
 			Fatal:     true,
 			Signature: l.Backend + "/" + SigKeptTreeDangling,
@@ -307,7 +307,7 @@ func (l *Lab) classifyOpError(res OpResult) (Finding, bool) {
 // occur in, who created / re-created them and whether they pre-existed.
 func (l *Lab) classifyBrokenRoot(res OpResult, opName string, ri *RootInfo, rr ReadResult) []Finding {
 	fs := l.classifyBrokenRoot0(res, opName, ri, rr)
-	if ri.ViaTree > 0 && l.TreeShortcut[ri.ViaTree] {
+	if ri.ViaTree > 0 && ri.AfterShortcut {
 		// The root was committed through a long-lived tree which, in an earlier commit, had
 		// produced a root that already existed (committed by another tree): the backend dropped
 		// that batch, but the tree kept the node references it had handed out. Used only when
